@@ -6,7 +6,16 @@ pid = sys.argv[1]
 n = sys.argv[2] if len(sys.argv) > 2 else "3"
 props = {json.loads(l)["id"]: json.loads(l) for l in open("/verif/properties.jsonl") if l.strip()}
 p = props[pid]
-wt = f"/tmp/seed/{pid}"
+rnd = sys.argv[3] if len(sys.argv) > 3 else ""
+wt = f"/tmp/seed/{pid}{rnd}"
+import glob, os
+known = []
+if rnd:
+    for mp in sorted(glob.glob(f"/verif/seeded/{pid}-*/meta.json")):
+        known.append(json.load(open(mp)).get("summary") or "")
+avoid = ""
+if known:
+    avoid = "\n\nChanges of the following kinds have ALREADY been produced by earlier rounds; yours must use different mechanisms, different functions or need different triggers:\n" + "\n".join(f"  - {k[:400]}" for k in known)
 print(f"""You are helping to evaluate a verification effort by playing the role of a developer who introduces a subtle regression into a Go library. Work ONLY inside the scratch git worktree {wt} (a checkout of DataDog/sketches-go, a Go implementation of the DDSketch quantile sketch). Do not read or write anything under /repo or /verif. Every shell command needs: export GOFLAGS=-mod=mod GOPROXY=off GOSUMDB=off GOTOOLCHAIN=local (the sandbox is offline; nothing can be downloaded).
 
 The library is supposed to satisfy this property:
@@ -20,7 +29,7 @@ Your task: produce {n} DIFFERENT, independent source changes (different mechanis
   (a) breaks this property in a realistic way - the kind of mistake a refactoring, an optimisation or an off-by-one could introduce, touching non-test .go files only;
   (b) still compiles (go build ./... and go vet ./... in the worktree) and still passes the ENTIRE existing test suite unchanged: run `go test -vet=off -count=1 -timeout 25m ./...` in the worktree with the change applied (the store package alone takes about 4-5 minutes; run it to completion and check every package says ok; IMPORTANT: before running the suite move your out/ directory aside, e.g. rename it to .out_hidden, so that its demo files are not compiled as part of ./..., and move it back afterwards);
   (c) needs something specific to manifest - a particular multi-step sequence of operations, an unusual input (boundary index, special weight, particular store kind pair, empty/cleared object, specific size threshold), or two cooperating sites that each look fine alone - rather than being exposed at once by ordinary use. Prefer changes in shared mutable state, cursor/offset/bounds logic, reuse of cleared memory, fast paths vs fallbacks.
-  Do not produce changes that merely alter documentation, error message text, performance, or that break compilation of reasonable client code. Do not special-case magic constants in a way no developer would write.
+  Do not produce changes that merely alter documentation, error message text, performance, or that break compilation of reasonable client code. Do not special-case magic constants in a way no developer would write.{avoid}
 
 For each change k = 1..{n} write, under {wt}/out/k/ (create the directories; they are untracked):
   - patch.diff : the change as `git diff` output relative to the worktree's HEAD (must apply with `git apply` at the repository root);
